@@ -21,7 +21,7 @@ func C03_Jobs() []string {
 		"int64/int", "int64/decstr", "int32/int32",
 		"float/float64", "float/int", "float/float32", "float/fltstr", "float32/float32",
 		"bool/bool", "bool/words", "bool/int",
-		"string/string", "string/fmt",
+		"string/string", "string/fmt", "string/blank-untouched",
 		"time/time", "time/rfc3339", "time/unix-int", "time/unix-int64", "time/format", "time/formatfunc", "time/zero-value",
 		"option/withcoercer-int", "option/withcoercer-string", "option/withcoercer-ptr", "option/withcoercer-slice", "option/global-override", "option/global-override-widths",
 		"slice/list", "slice/scalar", "slice/typed", "slice/repeated-params",
@@ -158,6 +158,27 @@ func C03_Run(job string) {
 		v.Assert(d == want, "C03:bool-coercion")
 	case "string":
 		d := "pre"
+		if b == "blank-untouched" {
+			// a string of Unicode white space only is an absent value: an optional node leaves its
+			// destination untouched, a Default replaces it, a pointer stays nil (ALL byte strings <=2, 3 thorough)
+			s := v.String("s", 2+v.Tier())
+			n := 0
+			for n < len(s) {
+				n++
+			}
+			v.Assume(refBlank(s, n))
+			var ds struct {
+				A string
+				B string
+				P *string
+				L []string
+			}
+			ds.A = "keep"
+			c03ok(len(z.Struct(z.Schema{"a": z.String(), "b": z.String().Default("dflt"), "p": z.Ptr(z.String()), "l": z.Slice(z.String())}).
+				Parse(map[string]any{"a": s, "b": s, "p": s, "l": s}, &ds)))
+			v.Assert(ds.A == "keep" && ds.B == "dflt" && ds.P == nil && ds.L == nil, "C03:absent-optional-written")
+			return
+		}
 		if b == "string" {
 			s := v.String("s", 3+v.Tier())
 			n := 0
